@@ -147,7 +147,7 @@ Judge(e, n, pre, post) ==
   /\ Chk(same => \A q \in sentPP \cup sentNV : q.v >= pre.view, "c10_proposal_below_current_view")
   /\ Chk(\A q \in sentVC : H.vc[1] < q.h \/ (H.vc[1] = q.h /\ H.vc[2] < q.v), "c10_view_change_views_not_increasing")
   \* C11: genuine messages of correct nodes are accepted by correct peers in a matching state
-  /\ Chk((e.ev = "deliver" /\ same /\ e.from \in Correct /\ e.tmpl \in {"", "dup"} /\ m.h = pre.h /\ ~pre.committed) => C11Accepts(m, n, pre, post),
+  /\ Chk((e.ev = "deliver" /\ same /\ e.from \in Correct /\ e.tmpl \in {"", "dup"} /\ m.h = pre.h /\ ~pre.committed /\ pre.member) => C11Accepts(m, n, pre, post),
          "c11_honest_message_rejected")
   \* C13: the heights passed to the new-consensus-round callback strictly increase
   /\ Chk(LET all == H.rounds \o [i \in DOMAIN e.rounds |-> e.rounds[i].h] IN
@@ -158,6 +158,10 @@ Judge(e, n, pre, post) ==
          "c18_proposer_named_to_consumer_is_not_the_leader_of_the_view")
   \* C17 in situ: a message reaches the protocol logic of a term only if its height is that term's height
   /\ Chk(\A i \in DOMAIN e.stores : e.stores[i].h = e.stores[i].at, "c17_message_handled_by_term_of_other_height")
+  \* C17: a node that is not in the committee of its height has no term logic for that height: a message delivered to it is
+  \* handled by nothing (if anything is stored, validated or sent, the term of ANOTHER height handled it)
+  /\ Chk((e.ev = "deliver" /\ same /\ ~pre.member) => (e.stores = <<>> /\ e.sent = <<>> /\ e.vals = <<>>),
+         "c17_message_handled_although_node_has_no_term_of_that_height")
   \* C01 / C03 / C04 at every commit callback
   /\ \A i \in DOMAIN e.commits :
        LET c == e.commits[i] IN
